@@ -47,6 +47,18 @@ class Ctx:
             # paths computed during bootstrap did not need room facts (constructors / len): keep them
         return self._models[cfg]
 
+    def models_inconsistent_eq(self, cfg):
+        """same models, but a lookup by a node's own key may miss (user Eq/Hash need not be consistent)"""
+        k = cfg + ":noeq"
+        if k not in self._models:
+            base = self.models(cfg)
+            m = absint.Models()
+            m.resident_bound_fields = base.resident_bound_fields
+            m.cap_alias = base.cap_alias
+            m.assume_consistent_eq = False
+            self._models[k] = m
+        return self._models[k]
+
     def paths(self, cfg, fpath, policy=None, models=None, tag="full"):
         k = (cfg, fpath, tag)
         if k not in self._paths:
